@@ -27,6 +27,10 @@ type memConn struct {
 	writes  [][]byte
 	wlens   []int
 	closes  int
+	// additions (opt-in; the defaults keep the earlier behaviour)
+	waiting       int   // readers blocked in Read with nothing queued
+	localClosed   bool  // closed through Close() (the library), not through cut() (the peer)
+	localCloseErr error // if set: what Read returns after a local Close (default io.EOF)
 }
 
 var errClosedConn = errors.New("memconn: use of closed connection")
@@ -46,11 +50,17 @@ func (c *memConn) Read(p []byte) (int, error) {
 		c.maxRead = len(p)
 	}
 	for len(c.in) == 0 && !c.closed && !c.eof {
+		c.waiting++
+		c.cond.Broadcast() // wake waitReaderIdle
 		c.cond.Wait()
+		c.waiting--
 	}
 	if len(c.in) == 0 {
 		if c.eof {
 			return 0, io.EOF
+		}
+		if c.localClosed && c.localCloseErr != nil {
+			return 0, c.localCloseErr // closed by the client itself (net.Pipe: io.ErrClosedPipe)
 		}
 		return 0, io.EOF // a cut connection reads as EOF, like a peer reset seen by the reader
 	}
@@ -89,11 +99,42 @@ func (c *memConn) Write(p []byte) (int, error) {
 
 func (c *memConn) Close() error {
 	c.mu.Lock()
+	if !c.closed {
+		c.localClosed = true // Close is what the library calls; the peer side uses cut()
+	}
 	c.closed = true
 	c.closes++
 	c.cond.Broadcast()
 	c.mu.Unlock()
 	return nil
+}
+
+// cut: the peer ends the connection; the reader sees io.EOF, later writes fail.
+func (c *memConn) cut() {
+	c.mu.Lock()
+	c.closed = true
+	c.closes++
+	c.cond.Broadcast()
+	c.mu.Unlock()
+}
+
+// waitReaderIdle blocks until everything queued for the client has been read and the reader is
+// blocked in Read again (or the connection is closed), at most for d. Called from onWrite it makes
+// the peer a zero-delay broker: the answer is consumed by the client's reader before Write returns.
+func (c *memConn) waitReaderIdle(d time.Duration) bool {
+	deadline := time.Now().Add(d)
+	c.mu.Lock()
+	defer c.mu.Unlock()
+	for !(c.closed || (len(c.in) == 0 && c.waiting > 0)) {
+		if time.Now().After(deadline) {
+			return false
+		}
+		// cond has no timed wait: poll with a short sleep outside the lock
+		c.mu.Unlock()
+		time.Sleep(20 * time.Microsecond)
+		c.mu.Lock()
+	}
+	return true
 }
 
 func (c *memConn) isClosed() bool {
@@ -195,6 +236,9 @@ type session struct {
 	states []string
 }
 
+// sessReentrant: handlers of sessions call back into their own client (Handle, Err, Done).
+var sessReentrant = true
+
 // newSession connects a BaseClient over a memConn whose peer answers CONNECT with an
 // accepting CONNACK; every later write is logged. onPkt (optional) sees every later packet.
 func newSession(handler bool, onPkt func(s *session, pkt []byte)) (*session, error) {
@@ -219,13 +263,31 @@ func newSession(handler bool, onPkt func(s *session, pkt []byte)) (*session, err
 		s.mu.Unlock()
 	}
 	if handler {
-		s.cli.Handle(mqtt.HandlerFunc(func(m *mqtt.Message) {
+		var h mqtt.Handler
+		h = mqtt.HandlerFunc(func(m *mqtt.Message) {
 			cp := *m
 			cp.Payload = append([]byte{}, m.Payload...)
 			s.mu.Lock()
 			s.events = append(s.events, sessEvent{Kind: "hand", Msg: &cp})
 			s.mu.Unlock()
-		}))
+			// The handler owns the message it was handed ("Ownership of the message is now transferred to
+			// the receiver", serve.go): whatever it does with it, and whatever it calls on its own client,
+			// must not change what the library does next.
+			m.ID ^= 0x5A5A
+			m.Topic = "scribbled"
+			m.QoS = mqtt.QoS0
+			m.Dup = !m.Dup
+			m.Retain = !m.Retain
+			for i := range m.Payload {
+				m.Payload[i] ^= 0xFF
+			}
+			if sessReentrant {
+				s.cli.Handle(h) // re-register itself: takes the client lock
+				_ = s.cli.Err()
+				_ = s.cli.Done()
+			}
+		})
+		s.cli.Handle(h)
 	}
 	ctx, cancel := ctxTimeout(5 * time.Second)
 	defer cancel()
